@@ -161,4 +161,13 @@ def predicates(c, ri, rm):
 
 
 def scale(c, rm):
+    if c.op == "bdeduce":
+        # the operands are stratified towards vanishing divisors: the quotient K is conditioned like the reciprocal of
+        # P(x) a_y, (1 - P(x)) a_y, ... (down to 1e-25 here); this property is about rejection, accuracy is C14's
+        bx, dx, ux, ax = [Fraction(v) for v in c.nums[:4]]
+        ay = Fraction(c.nums[10])
+        px = bx + ax * ux
+        ds = [px * ay, (1 - px) * ay, px * (1 - ay), (1 - px) * (1 - ay)]
+        if all(d > 0 for d in ds):
+            return max(1 << 20, max(1 / d for d in ds))
     return 1 << 20
